@@ -598,6 +598,32 @@ func hasDotStarPrefix(re *syntax.Regexp) bool {
 		(first.Sub[0].Op == syntax.OpAnyChar || first.Sub[0].Op == syntax.OpAnyCharNotNL)
 }
 
+// isDotStarThenLiteral reports whether the pattern is exactly a greedy `.*`
+// (without the s flag) followed by one case-sensitive literal, e.g. `.*\.txt`.
+// Only then is a match known to run from the start of the line holding the
+// first literal occurrence to the end of the last occurrence on that line,
+// which is what the reverse-suffix searchers' matchStartZero shortcut assumes.
+func isDotStarThenLiteral(re *syntax.Regexp) bool {
+	if !hasDotStarPrefix(re) {
+		return false
+	}
+	for re.Op == syntax.OpCapture && len(re.Sub) > 0 {
+		re = re.Sub[0]
+	}
+	if len(re.Sub) != 2 {
+		return false
+	}
+	first := re.Sub[0]
+	for first.Op == syntax.OpCapture && len(first.Sub) > 0 {
+		first = first.Sub[0]
+	}
+	if first.Flags&syntax.NonGreedy != 0 || first.Sub[0].Op != syntax.OpAnyCharNotNL {
+		return false
+	}
+	lit := re.Sub[1]
+	return lit.Op == syntax.OpLiteral && lit.Flags&syntax.FoldCase == 0
+}
+
 // isWildcardSubexpression checks if a subexpression acts as a "wildcard" that can
 // consume variable-length input. Used by isSafeForReverseSuffix to identify patterns
 // suitable for reverse suffix search.
